@@ -266,9 +266,9 @@ fn judge_contender(res: &mut RunResult, scenario: &str, who: &str, holder: u64, 
         res.bump(&format!("finding={CLASS_UID}"));
         res.oracle_violations.push(OracleViolation {
             case_id: -1,
-            what: format!("{scenario}: {who} (uid {NOBODY}) on the shared store of {holder_desc} (pid {holder}, ALIVE, owned by uid 0 — the contender may not signal it: kill(pid, 0) = EPERM): {ms} ms after its start lock.json no longer carried pid {holder}'s record (lock code now {lock_after}: 0 = removed, 1 = fresh empty lock, 2+pid = record of pid); the contender's output: {}", tail(log)),
+            what: format!("{scenario}: {who} on the shared store of {holder_desc} (pid {holder}, ALIVE, owned by another uid — the contender may not signal it: kill(pid, 0) = EPERM): {ms} ms after its start lock.json no longer carried pid {holder}'s record (lock code now {lock_after}: 0 = removed, 1 = fresh empty lock, 2+pid = record of pid); the contender's output: {}", tail(log)),
             class: CLASS_UID.into(),
-            replay: json!({"real_processes": scenario, "contender": who, "contender_uid": NOBODY, "authority_pid": holder, "authority": holder_desc, "schedule": schedule}),
+            replay: json!({"real_processes": scenario, "contender": who, "authority_pid": holder, "authority": holder_desc, "schedule": schedule}),
         });
         return false;
     }
@@ -316,11 +316,40 @@ pub fn finish_client_other_uid(res: &mut RunResult, p: Option<PendingClient>) {
         format!("store with directories 0777: authority/lock.json and authority/meta.json carry pid {} (this live root-owned process), endpoint http://127.0.0.1:1 (silent)", p.holder),
         format!("run `rip threads ensure` with uid/gid {NOBODY} on that store; watch lock.json until the command ends"),
     ];
-    judge_contender(res, "client_vs_silent_live_authority", "`rip threads ensure`", p.holder, "a live root-owned process holding lock.json and meta.json (endpoint silent)", st, lock_after, changed, &p.log, "timed out waiting for local authority", schedule);
+    judge_contender(res, "client_vs_silent_live_authority", &format!("`rip threads ensure` (uid {NOBODY})"), p.holder, "a live root-owned process holding lock.json and meta.json (endpoint silent)", st, lock_after, changed, &p.log, "timed out waiting for local authority", schedule);
     stop_child(&mut p.child);
     kill_new_owner(&p.data, &[p.holder]);
     reap_orphans(200);
     drop(p.sc);
+}
+
+/// `rip serve` (as uid 65534 when `switch_uid`, else as the current user) on a store whose lock.json carries the pid of a live
+/// process of ANOTHER uid (`holder`), no meta.json.  -> false: the contender could not be started
+fn server_vs_starting_live_authority(res: &mut RunResult, rip: &Path, holder: u64, switch_uid: bool) -> bool {
+    let (sc, data, ws) = shared_store(&LockF::Rec(holder), None);
+    let log = sc.path().join("b.log");
+    let mut cmd = rip_cmd(rip, &["serve"], &data, &ws, sc.path(), &log);
+    if switch_uid {
+        as_nobody(&mut cmd);
+    }
+    let who_uid = if switch_uid { NOBODY } else { euid() };
+    match cmd.spawn() {
+        Ok(mut b) => {
+            let (st, lock_after, changed) = watch(&mut b, &data, holder, 240);
+            let schedule = vec![
+                format!("store with directories 0777: authority/lock.json carries pid {holder} (a live process of another uid), no meta.json"),
+                format!("run `rip serve` with uid {who_uid} on that store; watch lock.json until it ends"),
+            ];
+            judge_contender(res, "server_vs_starting_live_authority", &format!("`rip serve` (pid {}, uid {who_uid})", b.id()), holder, "a live process of another uid holding lock.json, no meta.json yet", st, lock_after, changed, &log, "store already has an authority", schedule);
+            stop_child(&mut b);
+            kill_new_owner(&data, &[holder, std::process::id() as u64]);
+            true
+        }
+        Err(e) => {
+            res.notes.push(format!("other_uid: could not run {} as uid {who_uid}: {e} — skipped", rip.display()));
+            false
+        }
+    }
 }
 
 /// server-side contenders of another uid, and the client of another pid namespace
@@ -329,30 +358,21 @@ pub fn other_uid_and_namespace(res: &mut RunResult) {
     if !rip.exists() {
         return;
     }
+    let me = std::process::id() as u64;
     if euid() != 0 {
-        res.notes.push(format!("other_uid: the harness runs as uid {}, not root: it cannot start contenders of another uid / a pid namespace — skipped", euid()));
+        // not root: no contender of another uid can be started, but pid 1 is a live process of another uid that this user may
+        // not signal — the contender is `rip serve` as the current user, the "authority" is pid 1
+        if may_signal(euid(), 1) == Some(false) {
+            server_vs_starting_live_authority(res, &rip, 1, false);
+            res.notes.push(format!("other_uid: the harness runs as uid {}, not root: only `rip serve` as this user against lock.json of pid 1 was run; contenders of uid {NOBODY}, the SIGSTOPped real authority and the pid namespace are skipped", euid()));
+        } else {
+            res.notes.push(format!("other_uid: the harness runs as uid {}, not root, and may signal pid 1: skipped", euid()));
+        }
         return;
     }
-    let me = std::process::id() as u64;
     // 1. a live authority of another uid that has not published its endpoint yet (fabricated: lock.json of this live process)
-    {
-        let (sc, data, ws) = shared_store(&LockF::Rec(me), None);
-        let log = sc.path().join("b.log");
-        match as_nobody(&mut rip_cmd(&rip, &["serve"], &data, &ws, sc.path(), &log)).spawn() {
-            Ok(mut b) => {
-                let (st, lock_after, changed) = watch(&mut b, &data, me, 240);
-                let schedule = vec![
-                    format!("store with directories 0777: authority/lock.json carries pid {me} (this live root-owned process), no meta.json"),
-                    format!("run `rip serve` with uid/gid {NOBODY} on that store; watch lock.json until it ends"),
-                ];
-                judge_contender(res, "server_vs_starting_live_authority", &format!("`rip serve` (pid {})", b.id()), me, "a live root-owned process holding lock.json, no meta.json yet", st, lock_after, changed, &log, "store already has an authority", schedule);
-                stop_child(&mut b);
-            }
-            Err(e) => {
-                res.notes.push(format!("other_uid: could not run {} as uid {NOBODY}: {e} — skipped", rip.display()));
-                return;
-            }
-        }
+    if !server_vs_starting_live_authority(res, &rip, me, true) {
+        return;
     }
     // 2. the client of another pid namespace (`unshare --pid --fork`): lock.json and meta.json carry the pid of this live process,
     //    which does not exist in the client's namespace (the REAL probe answers ESRCH), and the endpoint ANSWERS (the ping is
@@ -398,7 +418,7 @@ pub fn other_uid_and_namespace(res: &mut RunResult) {
                     "SIGSTOP it (alive, endpoint silent)".to_string(),
                     format!("run `rip serve` with uid/gid {NOBODY} on the same store; watch lock.json until it ends"),
                 ];
-                judge_contender(res, "server_vs_stopped_real_authority", &format!("`rip serve` (pid {})", b.id()), apid, "a real `rip serve` started by root (SIGSTOPped: alive, not answering)", st, lock_after, changed, &blog, "store already has an authority", schedule);
+                judge_contender(res, "server_vs_stopped_real_authority", &format!("`rip serve` (pid {}, uid {NOBODY})", b.id()), apid, "a real `rip serve` started by root (SIGSTOPped: alive, not answering)", st, lock_after, changed, &blog, "store already has an authority", schedule);
                 stop_child(&mut b);
             }
             Err(e) => res.notes.push(format!("other_uid: could not run {} as uid {NOBODY}: {e} — skipped", rip.display())),
